@@ -6,11 +6,11 @@ THEOREMS = [
     "Slock.C11.C11_required_count",
     "Slock.C11.C11_succed_only_after_quorum_partial", "Slock.C11.C11_succed_only_after_quorum_violated",
     "Slock.C11.C11_duplicate_answers_are_counted", "Slock.C11.C11_succed_reentrant_violated",
-    "Slock.C11.C11_ack_waiting", "Slock.C11.C11_ack_waiting_unlock_first_violated",
+    "Slock.C11.C11_ack_waiting", "Slock.C11.C11_ack_waiting_unlock_first",
     "Slock.C11.C11_failure_rolls_back", "Slock.C11.C11_failure_causes", "Slock.C11.C11_value_restored",
     "Slock.C11.C11_value_not_restored_violated",
-    "Slock.C11.C11_single_shot", "Slock.C11.C11_exactly_one_outcome_partial", "Slock.C11.C11_exactly_one_outcome_guarded",
-    "Slock.C11.C11_exactly_one_outcome_violated", "Slock.C11.C11_reply_lost_violated",
+    "Slock.C11.C11_single_shot", "Slock.C11.C11_exactly_one_outcome", "Slock.C11.C11_exactly_one_outcome_once",
+    "Slock.C11.C11_repaired_runs",
     "Slock.C11.C11_tables_drain_partial", "Slock.C11.C11_tables_drain_violated",
 ]
 FINISH = {"level": "proof", "assumptions": [
@@ -18,6 +18,12 @@ FINISH = {"level": "proof", "assumptions": [
     "differential: a real SLock + LockDB + ReplicationManager + ReplicationAckDB in-process as leader under the virtual clock; every "
     "event's replies (connection, RequestId, Result, LCount, LRCount, data) and the state dumps (holders with depth / ackCount / isAof, "
     "queue, value, commandAofs / aofLocks sizes, journal backlog, STATE counters) are compared",
+    "model and theorems are about the code AFTER the repairs e4ad793 (re-entrant require-ack LOCK: its UPDATED record is journalled without "
+    "the ack registration), 804e6dc (unlock-first honours ackCount != 0xff) and f622546 (ProcessLeaderPushLock does not register a lock "
+    "that is no longer held). Their reproducers are corpus/ack_fixed.ops, replayed in every run: a disagreement, a crash, a reference-count "
+    "anomaly or any monitor failure there other than C11:succed-before-aofed:reentrant is reported; the monitor signatures of the repaired "
+    "defects (C11:reply-count:duplicate:*, C11:reply-count:lost:*, C11:no-ack-waiting-answer:unlock-first, C11:table-entry-of-freed-lock, "
+    "C11:live-hold-object-freed) are kept and fire on a regression",
     "granularity: one event = one complete call of a real entry point (LockDB.Lock / UnLock incl. wake pass; one second of the two "
     "sweepers; ReplicationManager.PushLock for the oldest journal record; AofChannel.AofAcked+HandleAofAcked; AofChannel.Acked+HandleAcked; "
     "ReplicationAckDB.SwitchToFollower / FlushDB). In the server these run on different goroutines and serialise on the ack-table mutex "
@@ -26,6 +32,10 @@ FINISH = {"level": "proof", "assumptions": [
     "delivers them in push order (one channel per shard ⇒ FIFO), assigning aof ids the way Aof.PushLock does (UpdateAofId(1, n)); no file "
     "is written, `aofed` is the harness calling AofChannel.AofAcked with the record buffer (what Aof.lockAcked does after AofFile.Flush), "
     "`acked` is AofChannel.Acked with a LockResultCommand carrying the aof id (what the replication server's reader does)",
+    "fault model of the acknowledgements: delayed, negative, lost, pre-empted by timeout / unlock / demotion / flush, for settled and unknown "
+    "ids; a follower answers a record at most once (duplicated answers: VERIF_ACK_DUP=1, off in both tiers; what they do is the remark "
+    "C11_duplicate_answers_are_counted). Entries that stay in commandAofs / aofLocks after their lock is settled are recorded as "
+    "observations (distribution: observation:pending-table-leak:*), not as violations; C11_tables_drain_partial / _violated state what holds",
     "not modelled / not exercised: the follower side (ProcessFollower*), the real network, real flush timing, ReplicationManager."
     "SwitchToFollower's waits (the harness sets slock.state / db.status and calls ReplicationAckDB.SwitchToFollower itself), "
     "LockDB.FlushDB (forced expiry of everything), millisecond timers, update-when-locked, show-when-locked, priorities, E = 0 requests",
@@ -33,19 +43,20 @@ FINISH = {"level": "proof", "assumptions": [
     "APPEND without property header; UNLOCK Flag ∈ {0, 0x01}; db.aofTime = 200 s (holds that did not go through the ack branch are never "
     "journalled by age); key records are pinned (lockManager.refCount+1) for the duration of a history so that the value cell is not "
     "recycled (key-record lifetime is M-ENGINE stage 2's subject)",
-    "lock-record reference counts and the recycling of freed Lock objects (db.freeLocks[shard]) are NOT in the model. Where the real "
-    "code leaves a reference count wrong (DoAckLock's `update` exit after a re-entrant require-ack LOCK; HandleLock's DoAckLock after a "
-    "write error) the harness detects it (C11:table-entry-of-freed-lock, C11:live-hold-object-freed, second reply 0+5), reports it, ends "
-    "the history there and empties the shard's pool; the random walk delivers the journal record of a re-entrant require-ack LOCK at "
-    "once and does not generate PW (VERIF_ACK_PW=1 does)",
-    "C11_exactly_one_outcome_partial / _guarded hold for guarded runs only (no unlock-first onto a pending hold; a delivered LOCK record "
-    "belongs to a lock still waiting for it); the three _violated theorems show each guard is necessary. C11_ack_waiting assumes "
-    "lockManager.locked > 0 for a key with a live hold (census: monitor C11:census, theorem C17 over M-ENGINE)",
+    "lock-record reference counts and the recycling of freed Lock objects (db.freeLocks[shard]) are NOT in the model; the harness checks "
+    "after every event that no live hold and no registered lock is a freed object and ends the history with a C11: signature if one is. "
+    "HandleLock's DoAckLock after a write error (event PW) leaves a reference count wrong by construction of the harness (it calls it on a "
+    "record the engine still owns): PW is generated only with VERIF_ACK_PW=1 and the instance is discarded afterwards",
+    "C11_exactly_one_outcome / _once hold for EVERY run (no guard): the invariant InvK.kj (a lock whose LOCK record is still in the journal "
+    "is dead or still pending) replaces the former guards. C11_ack_waiting / _unlock_first assume lockManager.locked > 0 for a key with a "
+    "live hold (census: monitor C11:census, theorem C17 over M-ENGINE)",
     "theorems quantify over reqAcks cfg < 255 (≤ 253 followers): db.ackCount is a uint8 and 0xff means 'not pending'",
 ]}
 
 ACK_FILES = ["zz_verif_ack_test.go", "zz_verif_engine_test.go", "zz_verif_engine_monitor_test.go"]
 CORPUS = os.path.join(vlib.VERIF, "corpus", "ack.ops")
+FIXED = os.path.join(vlib.VERIF, "corpus", "ack_fixed.ops")      # reproducers of repaired defects: must pass
+FIXED_STILL_OPEN = ("C11:succed-before-aofed:reentrant",)        # fires on some of them by design of the minimal repair
 
 
 def read_monitor(ctx, outdir, mode, prefixes):
@@ -103,6 +114,25 @@ def run_ack(ctx, exe, n, seed, extra=None):
         ctx.cov.setdefault("disagreements", []).append({"op": d[1], "impl": d[2], "model": d[3]})
 
 
+def run_fixed(ctx, exe):
+    """the repaired histories: real code and model agree, no anomaly, no monitor failure but the still-open one"""
+    if not os.path.exists(FIXED):
+        return
+    outdir = ctx.run_harness(exe, "ack", 0, extra={"VERIF_ACK_SCRIPT": FIXED, "VERIF_ACK_SCRIPT_ONLY": "1"}, timeout=300)
+    if not outdir:
+        return
+    n = sum(1 for l in open(FIXED) if l.startswith("ack "))
+    dis = ctx.diff(outdir, "ack")
+    seen = read_monitor(ctx, outdir, "ack", ["C11:"])
+    bad = sorted(k for k in seen if k not in FIXED_STILL_OPEN)
+    ctx.cov["fixed_corpus"] = {"lines": n, "disagreements": len(dis or []), "regressions": bad,
+                               "still_open_seen": {k: v for k, v in seen.items() if k in FIXED_STILL_OPEN}}
+    if dis:
+        d = dis[0]
+        ctx.broken.append({"kind": "correspondence", "name": "M-ACK vs real code on the FIXED corpus",
+                           "detail": f"{len(dis)} repaired histories disagree; first: {first_divergence(d[1], d[2], d[3])} ops={d[1][:1500]}"})
+
+
 def run(ctx):
     ctx.extract()
     ctx.lake_build(["Slock.Properties.C11"])
@@ -112,6 +142,7 @@ def run(ctx):
     exe = ctx.build_harness("server", only=ACK_FILES)
     if not exe:
         return
+    run_fixed(ctx, exe)
     n = 2000 if ctx.tier == "quick" else 15000
     seeds = [ctx.seed] if ctx.tier == "quick" else [ctx.seed + i for i in range(4)]
     first = True
@@ -124,8 +155,8 @@ def run(ctx):
         run_ack(ctx, exe, n, sd, extra)
     ctx.cov["rule"] = ("seeded histories: 1-3 keys, 2-4 connections, followers 0..2 x ack mode all / majority; LOCK with / without require-ack, "
                        "with / without SET / INCR / APPEND frame, Timeout 0..9, Expried 1..20, Count 0..3, Rcount 0..2; UNLOCK (12% unlock-first); "
-                       "ticks; journal delivery in push order; own-flush report once per id (85% ok); follower answers (85% ok, duplicates, settled "
-                       "and unknown ids); role change + SwitchToFollower, FlushDB, channel closed / reopened; drain (deliver everything, no more "
+                       "ticks; journal delivery in push order; own-flush report once per id (85% ok); follower answers (85% ok, once per follower "
+                       "and id, settled and unknown ids); role change + SwitchToFollower, FlushDB, channel closed / reopened; drain (deliver everything, no more "
                        "acknowledgements, release settled holds, tick until nothing is pending or queued); distinct_nontrivial = histories with a "
                        "SUCCED or ERROR reply")
 
